@@ -13,7 +13,7 @@ Definition c16_nets (cfg : Z) : list auth :=
      | 0 => [[dc key_laixer_hcu 74]]
      | 1 => [[dc key_kuebler_encoder 106; dc key_kuebler_encoder 107; dc key_kuebler_encoder 108; dc key_kuebler_encoder 109; dc key_kuebler_inclinometer 122];
              [dc key_volvo_d7e 0; dc key_laixer_vcu 18; dc key_laixer_hcu 74]]
-     | 2 => [[dc key_laixer_hcu 74; dc key_kuebler_encoder 106; dc key_laixer_hcu 75]]
+     | 2 | 7 => [[dc key_laixer_hcu 74; dc key_kuebler_encoder 106; dc key_laixer_hcu 75]]   (* 7: interface dead at the signal *)
      | 3 => [[dc key_kuebler_inclinometer 122; dc key_j1939_ecu 32]]
      | _ => [[dc key_laixer_hcu 74; dc key_laixer_vcu 18]]      (* 4: silent units with a timeout; 5: congested bus at start-up *)
      end).
@@ -24,7 +24,8 @@ Definition c16_run (l : list Z) : list Z :=
   match l with
   | cfg :: _ =>
       let resets := flat_map auth_teardown (c16_nets cfg) in
-      [1; 1; Z.of_nat (length resets)] ++ map (fun _ => 1) resets ++ [0]
+      (* cfg 7: the interface is dead when the request arrives; whether a reset still got out is not determined *)
+      [1; 1; Z.of_nat (length resets)] ++ map (fun _ => if cfg =? 7 then -999999999999 else 1) resets ++ [0]
   | [] => bad_case end.
 
 Definition c16_check (l o : list Z) : bool :=
@@ -32,7 +33,8 @@ Definition c16_check (l o : list Z) : bool :=
   | exit_ok :: within :: nh :: rest =>
       (exit_ok =? 1) && (within =? 1)
       && (Z.of_nat (length rest) =? nh + 1)
-      && forallb (Z.eqb 1) (firstn (Z.to_nat nh) rest)          (* every hydraulic unit got its motion reset *)
+      && (match l with 7 :: _ => true | _ =>
+          forallb (Z.eqb 1) (firstn (Z.to_nat nh) rest) end)    (* every hydraulic unit got its motion reset (cfg 7: dead interface, cannot) *)
       && (nth (Z.to_nat nh) rest 1 =? 0)                         (* nothing after the daemon has exited *)
   | _ => false end.
 Definition c16_nontriv (l o : list Z) : bool := match o with _ :: _ :: nh :: _ => 0 <? nh | _ => false end.
